@@ -603,6 +603,8 @@ ErrorCode Library::write_oas(const char* filename, double circle_tolerance,
     Map<uint64_t> cell_offset_map = {};
     Map<uint64_t> text_string_map = {};
     bool write_cell_offsets = state.config_flags & OASIS_CONFIG_PROPERTY_CELL_OFFSET;
+    // The cell name table can only be flagged strict if every placement uses a reference number
+    bool cell_name_strict = true;
 
     // Build cell name map. Other maps are built as the file is written.
     cell_name_map.resize((uint64_t)(2.0 + 10.0 / GDSTK_MAP_CAPACITY_THRESHOLD * c_size));
@@ -711,6 +713,7 @@ ErrorCode Library::write_oas(const char* filename, double circle_tolerance,
                     uint64_t index = cell_name_map.get(name_);
                     oasis_write_unsigned_integer(out, index);
                 } else {
+                    cell_name_strict = false;
                     uint64_t len = strlen(name_);
                     oasis_write_unsigned_integer(out, len);
                     oasis_write(name_, 1, len, out);
@@ -724,6 +727,7 @@ ErrorCode Library::write_oas(const char* filename, double circle_tolerance,
                     uint64_t index = cell_name_map.get(name_);
                     oasis_write_unsigned_integer(out, index);
                 } else {
+                    cell_name_strict = false;
                     uint64_t len = strlen(name_);
                     oasis_write_unsigned_integer(out, len);
                     oasis_write(name_, 1, len, out);
@@ -884,7 +888,7 @@ ErrorCode Library::write_oas(const char* filename, double circle_tolerance,
     if (out.crc32 || out.checksum32) pad_len -= 4;
 
     // Table offsets
-    oasis_putc(1, out);
+    oasis_putc(cell_name_strict ? 1 : 0, out);
     oasis_write_unsigned_integer(out, cell_name_offset);
     oasis_putc(1, out);
     oasis_write_unsigned_integer(out, text_string_offset);
